@@ -6,7 +6,11 @@ Every frame carries at least one labelled instance (the labels reader needs one)
 detections" holds a ghost animal whose centroid lies far outside the image, so that the centroid
 network shows nothing for it.  eff_scale = 1 in the one-size cases; the "mixed" cases hold 2-3 videos of different frame sizes with
 max_height/max_width size matching (eff_scale differs between batch-mates; F61 of C02 is repaired in /repo).
-Model: coq/theories/C12/Batch.v (centroid_only_stream; CGt)."""
+The opposite of a ghost is a "phantom": a centroid that the centroid network shows (drawn by the stub) but that has no
+labelled instance (`"unlabelled"` in c02_stub.Scene).  FindInstancePeaksGroundTruth matches it to the nearest labelled
+instance of ITS OWN frame, so a frame can have MORE matched centroids than the labels file has instance rows (M): the
+counts / `parsed` walk must then move past all of the frame's matches while emitting only M rows.
+Model: coq/theories/C12/Batch.v (centroid_only_stream; CGtM: peaks (id, value, index of the matched labelled instance))."""
 from __future__ import annotations
 
 import json
@@ -29,7 +33,48 @@ def _P12():
     return P
 
 
-def gen_case(rng, idx, mixed=False):
+def _dist_ok(p, others, mx, my, need):
+    """euclidean distance of p to every point of `others`, measured in the size-matched image, >= need"""
+    for q in others:
+        dx, dy = float(mx[0] * (p[0] - q[0])), float(my[0] * (p[1] - q[1]))
+        if dx * dx + dy * dy < need * need:
+            return False
+    return True
+
+
+def nearest_label(p, labelled):
+    """The code's rule inside ONE frame: index (in label order) of the labelled instance with the smallest
+    distance from point p to any of its (non-missing) nodes, and the margin to the runner-up (inf if alone)."""
+    ds = []
+    for a in labelled:
+        d = min((float(p[0]) - float(q[0])) ** 2 + (float(p[1]) - float(q[1])) ** 2 for q in a["kps"] if q is not None) ** 0.5
+        ds.append(d)
+    j = min(range(len(ds)), key=lambda i: ds[i])
+    rest = [d for i, d in enumerate(ds) if i != j]
+    return j, (min(rest) - ds[j] if rest else float("inf")), ds
+
+
+def add_phantom(rng, c, animals, H, W, mx, my):
+    """A centroid the network will show but nobody labelled: anywhere in the frame, >= 4 sigma (in the network's
+    input) from every other centroid, in general position for the peak finder, and with an unambiguous nearest
+    labelled instance (margin >= 2 px).  Returns True when one was placed."""
+    need = 6 * c["os_c"]
+    labelled = [a for a in animals if not a.get("phantom")]
+    cents = [a["cent"] for a in animals if not a.get("ghost")]
+    for _ in range(60):
+        cx, cy = F(rng.randrange(64 * 14, 64 * (W - 14)), 64), F(rng.randrange(64 * 14, 64 * (H - 14)), 64)
+        if tie_margin(mx[0] * cx + mx[1], c["os_c"]) < F(1, 8) or tie_margin(my[0] * cy + my[1], c["os_c"]) < F(1, 8):
+            continue
+        if not _dist_ok((cx, cy), cents, mx, my, need):
+            continue
+        if labelled and nearest_label((cx, cy), labelled)[1] < 2.0:
+            continue
+        animals.append({"kps": [None] * c["n_nodes"], "cent": (cx, cy), "phantom": True})
+        return True
+    return False
+
+
+def gen_case(rng, idx, mixed=False, phantoms=False):
     P = _P12()
     n_frames = rng.randint(2, 5)
     if mixed:
@@ -50,7 +95,7 @@ def gen_case(rng, idx, mixed=False):
     for f in range(n_frames):
         H, W = sizes[vid[f]]
         mx, my = P.content_maps(H, W, mh, mw)
-        n_an = rng.choice([0, 1, 2, 3, 4])
+        n_an = rng.choice([0, 1, 1, 2, 2, 3]) if phantoms else rng.choice([0, 1, 2, 3, 4])
         if mixed and f < 2:
             n_an = max(1, n_an)
         animals = []
@@ -77,6 +122,31 @@ def gen_case(rng, idx, mixed=False):
         H, W = sizes[vid[0]]
         frames[0].insert(0, {"kps": [(F(W, 2) + F(1, 8) + k, F(H, 2) + F(3, 8)) for k in range(c["n_nodes"])],
                              "cent": (F(W, 2) + F(1, 8), F(H, 2) + F(3, 8))})
+    if phantoms:
+        c["family"] = (c.get("family", "") + "+phantoms").lstrip("+")
+        maps = [P.content_maps(*sizes[vid[f]], mh, mw) for f in range(n_frames)]
+        # scattered phantoms: any frame, any position of the batch (first included), next to ghosts or not
+        for f in range(n_frames):
+            if rng.random() < 0.35:
+                for _ in range(rng.choice([1, 1, 2])):
+                    add_phantom(rng, c, frames[f], *sizes[vid[f]], *maps[f])
+        # one frame that OVER-detects: more detected centroids than the labels file has instance rows
+        # (M = the largest number of labelled instances of any frame)
+        M = max(sum(1 for a in fr if not a.get("phantom")) for fr in frames)
+        det = [sum(1 for a in fr if not a.get("ghost")) for fr in frames]
+        if rng.random() < 0.5:
+            fstar = rng.randrange(n_frames)
+        else:
+            fstar = rng.choice([f for f in range(n_frames) if det[f] == max(det)])
+        if rng.random() < 0.85:
+            for _ in range(max(0, M + rng.choice([1, 1, 2]) - det[fstar])):
+                if sum(1 for a in frames[fstar] if a.get("phantom")) >= 5:
+                    break
+                add_phantom(rng, c, frames[fstar], *sizes[vid[fstar]], *maps[fstar])
+        c["over"] = fstar
+        # max_instances: unlimited / below M (top-k drops detections before the matching) / above M (top-k AND
+        # more matches than rows)
+        c["max_instances"] = rng.choice([None, None, None, 1, 2, 3, M + 1, M + 2])
     c["frames"] = frames
     order = list(range(n_frames))
     rng.shuffle(order)
@@ -87,6 +157,7 @@ def gen_case(rng, idx, mixed=False):
 def case_json(c):
     j = {k: v for k, v in c.items() if k != "frames" and not k.startswith("_")}
     j["frames"] = [[{"cent": [str(a["cent"][0]), str(a["cent"][1])], "ghost": bool(a.get("ghost")),
+                     "phantom": bool(a.get("phantom")),
                      "kps": [None if p is None else [str(p[0]), str(p[1])] for p in a["kps"]]}
                     for a in fr] for fr in c["frames"]]
     return j
@@ -95,6 +166,7 @@ def case_json(c):
 def case_from_json(j):
     c = dict(j)
     c["frames"] = [[{"cent": (F(a["cent"][0]), F(a["cent"][1])), "ghost": bool(a.get("ghost")),
+                     "phantom": bool(a.get("phantom")),
                      "kps": [None if p is None else (F(p[0]), F(p[1])) for p in a["kps"]]}
                     for a in fr] for fr in j["frames"]]
     return c
@@ -104,7 +176,8 @@ def build_scene(c):
     sc = S.Scene(c["n_nodes"])
     for f, animals in enumerate(c["frames"]):
         h, w = _P12().fsize(c, f)
-        sc.add(f, h, w, animals)
+        # a phantom is drawn by the stub centroid network but absent from the labels file
+        sc.add(f, h, w, [dict(a, unlabelled=True) if a.get("phantom") else a for a in animals])
     return sc
 
 
@@ -181,8 +254,12 @@ def oracle(c, runs):
             if not same_rows(a["peaks"], b["peaks"]):
                 fails.append(f"frame {fid}: run '{name}' instance rows {np.round(a['peaks'], 3).tolist()} but the frame alone "
                              f"gives {np.round(b['peaks'], 3).tolist()}")
+    def kps_arr(a):
+        return np.array([[np.nan, np.nan] if p is None else [float(p[0]), float(p[1])] for p in a["kps"]])
+
     for fid, animals in enumerate(c["frames"]):
-        real = [a for a in animals if not a.get("ghost")]
+        real = [a for a in animals if not a.get("ghost")]         # what the centroid network shows (phantoms included)
+        labelled = [a for a in animals if not a.get("phantom")]   # the frame's instances, in label order (ghosts included)
         full, kept = somes(ref[fid]["row"]), somes(base[fid]["row"])
         if len(full) != len(real):
             fails.append(f"frame {fid}: {len(full)} centroids for {len(real)} detectable animals (one by one)")
@@ -190,16 +267,30 @@ def oracle(c, runs):
         for name in runs:
             r = by[name][fid]
             cs = somes(r["row"])
+            M = len(r["peaks"])
             if not real and (cs or not np.isnan(r["peaks"]).all()):
                 fails.append(f"run '{name}': frame {fid} has no detection but yields {cs} / non-NaN instance rows")
-            # each centroid's row = the labelled instance of the animal it belongs to
+            # each centroid's row = the labelled instance of the animal it belongs to; a centroid nobody labelled
+            # (phantom) = the nearest labelled instance of ITS OWN frame; centroids beyond the M instance rows have no row
             for k, (x, y, v) in enumerate(cs):
+                if k >= M:
+                    continue
                 j = min(range(len(real)), key=lambda j: max(abs(x - float(real[j]["cent"][0])), abs(y - float(real[j]["cent"][1]))))
-                want = np.array([[np.nan, np.nan] if p is None else [float(p[0]), float(p[1])] for p in real[j]["kps"]])
-                if k >= len(r["peaks"]) or not np.allclose(r["peaks"][k], want, atol=1e-3, equal_nan=True):
-                    fails.append(f"run '{name}' frame {fid}: centroid {k} near animal {j} but its instance row is "
-                                 f"{np.round(r['peaks'][k], 3).tolist() if k < len(r['peaks']) else None}")
-            for k in range(len(cs), len(r["peaks"])):
+                if real[j].get("phantom"):
+                    _, _, ds = nearest_label((x, y), labelled)
+                    wants = [kps_arr(labelled[i]) for i in range(len(labelled)) if ds[i] <= min(ds) + 0.5]
+                    what = "a detected centroid without a labelled instance"
+                else:
+                    wants = [kps_arr(real[j])]
+                    what = f"centroid near animal {j}"
+                if not any(np.allclose(r["peaks"][k], w, atol=1e-3, equal_nan=True) for w in wants):
+                    other = [(f2, i) for f2, fr in enumerate(c["frames"]) if f2 != fid
+                             for i, a in enumerate(z for z in fr if not z.get("phantom"))
+                             if np.allclose(r["peaks"][k], kps_arr(a), atol=1e-3, equal_nan=True)]
+                    fails.append(f"run '{name}' frame {fid}: row {k} belongs to {what} but the instance row is "
+                                 f"{np.round(r['peaks'][k], 3).tolist()}"
+                                 + (f" = labelled instance {other[0][1]} of frame {other[0][0]} (a batch-mate)" if other else ""))
+            for k in range(len(cs), M):
                 if not np.isnan(r["peaks"][k]).all():
                     fails.append(f"run '{name}' frame {fid}: instance row {k} has no centroid but is not NaN")
         k = c.get("max_instances")
@@ -223,18 +314,26 @@ def cnat(n):
 
 
 def term(c, out, order, batch, mi, M, ref):
+    """CGtM: per frame (frame_idx, video_idx, [(id, value, match)]): id = position in the reference (one by one,
+    unlimited) run, match = label index of the nearest labelled instance of the same frame (the per-sample rule,
+    computed here from the case's labels and the reference centroid)."""
     fs = []
     for fid in order:
         vi, fi = out["where"][fid]
-        peaks = [f"({cnat(j)}, {core.cq(F(float(x[2])))})" for j, x in enumerate(somes(ref[fid]["row"]))]
+        labelled = [a for a in c["frames"][fid] if not a.get("phantom")]
+        peaks = []
+        for j, x in enumerate(somes(ref[fid]["row"])):
+            m = f"(Some {cnat(nearest_label((x[0], x[1]), labelled)[0])})" if labelled else "None"
+            peaks.append(f"({cnat(j)}, {core.cq(F(float(x[2])))}, {m})")
         fs.append(f"({cnat(fi)}, {cnat(vi)}, [{'; '.join(peaks)}])")
     mi_t = "None" if mi is None else f"(Some {cnat(mi)})"
-    return f"CGt {mi_t} {cnat(M)} {cnat(batch)} [{'; '.join(fs)}]"
+    return f"CGtM {mi_t} {cnat(M)} {cnat(batch)} [{'; '.join(fs)}]"
 
 
-def impl_ids(out, ref):
+def impl_ids(c, out, ref):
     """The implementation's output in the model's vocabulary: per record (frame_idx, video_idx,
-    centroid row ids, instance row ids), ids = position in the reference (one by one, unlimited) run."""
+    centroid row ids, instance row ids); centroid id = position in the reference (one by one, unlimited) run,
+    instance id = label index (within the record's own frame) of the labelled instance the row equals."""
     import numpy as np
     got = []
     for r in out["records"]:
@@ -244,13 +343,15 @@ def impl_ids(out, ref):
             continue
         full = somes(rr["row"])
         crow = [None if x is None else next((j for j, y in enumerate(full) if same_cent(x, y)), "?") for x in r["row"]]
+        labelled = [np.array([[np.nan, np.nan] if p is None else [float(p[0]), float(p[1])] for p in a["kps"]])
+                    for a in c["frames"][r["fid"]] if not a.get("phantom")]
         prow = []
         for k in range(len(r["peaks"])):
             if np.isnan(r["peaks"][k]).all():
                 prow.append(None)
             else:
-                prow.append(next((j for j in range(len(full)) if j < len(rr["peaks"]) and
-                                  np.allclose(r["peaks"][k], rr["peaks"][j], atol=TOL, equal_nan=True)), "?"))
+                prow.append(next((j for j, w in enumerate(labelled)
+                                  if np.allclose(r["peaks"][k], w, atol=1e-3, equal_nan=True)), "?"))
         got.append([r["ix"][1], r["ix"][0], crow, prow])
     return got
 
@@ -302,9 +403,16 @@ def evaluate(run, cases, mods, preamble):
     for ix, m in zip(sindex, smodel):
         s_by_case.setdefault(ix[0], []).append((ix[1], m))
     disagreements, ties = 0, 0
+    n_ph = n_over = n_over_followed = 0
     for ci, c in enumerate(cases):
         runs, err = all_runs[ci]
         cj = case_json(c)
+        if not err:
+            n_ph += any(a.get("phantom") for fr in c["frames"] for a in fr)
+            over = [r["fid"] for r in runs["batch"]["records"] if len(somes(r["row"])) > len(r["peaks"])]
+            n_over += bool(over)
+            seq = [(r["fid"], bool(somes(r["row"]))) for r in runs["batch"]["records"]]
+            n_over_followed += any(f in over and any(ne for _, ne in seq[i + 1:]) for i, (f, _) in enumerate(seq))
         run.case(cj, nontrivial=any(not a.get("ghost") for fr in c["frames"] for a in fr))
         if err:
             run.violation("failing-input", {"case": cj, "impl_error": err})
@@ -315,7 +423,7 @@ def evaluate(run, cases, mods, preamble):
             ties += 1
         else:
             for name, m in by_case.get(ci, []):
-                got = impl_ids(runs[name], c["_ref"])
+                got = impl_ids(c, runs[name], c["_ref"])
                 # the model's centroid row is padded like the implementation's; compare as is
                 if got != [list(x) for x in m]:
                     diffs.append(f"run '{name}': impl {got} model {m}")
@@ -329,7 +437,10 @@ def evaluate(run, cases, mods, preamble):
             run.violation("failing-input", {"case": cj, "oracle": fails[:6], "correspondence": diffs[:3]})
         elif diffs:
             run.proof_broken.append(f"correspondence C12 centroid-only model vs implementation, case {json.dumps(cj)[:800]}: {diffs[:2]}")
-    return disagreements, {"centroid_only_cases": len(cases), "centroid_only_equal_values_skipped": ties}
+    return disagreements, {"centroid_only_cases": len(cases), "centroid_only_equal_values_skipped": ties,
+                           "centroid_only_cases_with_detected_but_unlabelled_centroids": n_ph,
+                           "centroid_only_cases_with_more_matches_than_instance_rows": n_over,
+                           "centroid_only_cases_overdetecting_frame_followed_by_nonempty_batch_mate": n_over_followed}
 
 
 def replay_case(c, mods):
